@@ -118,6 +118,7 @@ class Ctx:
         self.translator_error = None
         self.build_failed = []
         self.search_factor = 1
+        self.second_search = False
 
     # ------------------------------------------------------------------ counters
     def tick(self, what):
@@ -388,6 +389,34 @@ class Ctx:
             f"distinct_nontrivial={self.cov['distinct_nontrivial']} obligations={self.cov['obligations']}/"
             f"{self.cov['discharged']} wall={ev['wall_s']}s violations={len(self.violations)}")
         sys.exit(1 if self.violations else 0)
+
+
+def run_coqchk(ctx, timeout=3000):
+    """Re-check every compiled Sketchnu library with the independent checker and record its context summary."""
+    libs = []
+    for sub in ("generated", "theories"):
+        for f in sorted(os.listdir(os.path.join(COQ, sub))):
+            if f.endswith(".vo"):
+                libs.append("Sketchnu." + f[:-3])
+    t = time.time()
+    rc, out, err = run(["coqchk", "-o", "-silent", "-R", "theories", "Sketchnu", "-R", "generated", "Sketchnu"] + libs,
+                       timeout, cwd=COQ)
+    txt = out + err
+    with open(os.path.join(BUILD, "coqchk.txt"), "w") as f:
+        f.write(txt)
+    m = re.search(r"\* Axioms:(.*?)\* Constants/Inductives relying on type-in-type", txt, flags=re.S)
+    axioms = [l.strip() for l in (m.group(1).splitlines() if m else []) if l.strip()]
+    prim = [a for a in axioms if "PrimInt63" in a or "PrimFloat" in a]
+    other = [a for a in axioms if a not in prim]
+    res = {"rc": rc, "libraries": len(libs), "wall_s": round(time.time() - t, 1),
+           "kernel_primitives_listed": len(prim), "axioms_other_than_primitives": other,
+           "type_in_type": re.search(r"type-in-type: (.*)", txt).group(1) if re.search(r"type-in-type: (.*)", txt) else "?",
+           "unsafe_fixpoints": re.search(r"unsafe \(co\)fixpoints: (.*)", txt).group(1) if re.search(r"unsafe \(co\)fixpoints: (.*)", txt) else "?",
+           "positivity_assumed": re.search(r"positivity is assumed: (.*)", txt).group(1) if re.search(r"positivity is assumed: (.*)", txt) else "?"}
+    ctx.cov["coqchk"] = res
+    if rc != 0:
+        ctx.broken.append("coqchk rejected the compiled development: " + txt[-400:])
+    return res
 
 
 def load_known_findings():
